@@ -117,6 +117,41 @@ class Ctx:
 
         return unk("local %s" % n)
 
+    def helper_closure(self, qual: str, depth: int = 2):
+        """qual plus the repository functions it calls by plain name / self.method / nested def, transitively up to `depth`
+        (so that extracting a block into a private helper does not hide it from a rule anchored on the caller)."""
+        k = "closure:%s:%d" % (qual, depth)
+        if k in self._cache:
+            return self._cache[k]
+        out, frontier = [qual], [qual]
+        for _ in range(depth):
+            nxt = []
+            for q in frontier:
+                fi = self.p.functions.get(q)
+                if fi is None or isinstance(fi.node, ast.Lambda):
+                    continue
+                for c in calls_in(fi.node):
+                    cand = None
+                    if isinstance(c.func, ast.Name):
+                        cur = q
+                        while cur and cand is None:
+                            n2 = "%s.<locals>.%s" % (cur, c.func.id)
+                            if n2 in self.p.functions:
+                                cand = n2
+                            cur = self.p.functions[cur].parent
+                        if cand is None:
+                            r = self.p.resolve_name(fi.module, c.func.id)
+                            if r and r[0] == "func":
+                                cand = r[1]
+                    elif isinstance(c.func, ast.Attribute) and isinstance(c.func.value, ast.Name) and c.func.value.id in ("self", "cls") and fi.cls:
+                        cand = self.p.lookup_method(fi.cls, c.func.attr)
+                    if cand and cand not in out and self.p.functions[cand].module == fi.module:
+                        out.append(cand)
+                        nxt.append(cand)
+            frontier = nxt
+        self._cache[k] = out
+        return out
+
     def table_lookups(self, qual: str, include_nested=False):
         """All `D[k]` loads and `D.get(k)` / `k in D` uses in the function where D folds to a dict/set.
         Returns list of (kind, table_value, table_text, key_expr, node)."""
